@@ -122,6 +122,8 @@ type Config struct {
 	// Tier2Hook, when set, may fail a job before it runs (fault injection).
 	Tier2Hook func(unit stage.Unit, attempt int) error
 	Timeout   time.Duration // per request (default 20 s)
+	// AfterJob is called when a segment job has finished successfully, before the scheduler hears of it.
+	AfterJob func(unit stage.Unit)
 }
 
 type Request struct {
@@ -354,6 +356,9 @@ func (w *worker) Work(ctx context.Context, unit stage.Unit, startBlock uint64, m
 		}
 		if err == nil {
 			err = RunTier2(ctx, cfg, request)
+		}
+		if err == nil && cfg.AfterJob != nil {
+			cfg.AfterJob(unit)
 		}
 		ws.finish(mySeq)
 		ws.mu.Lock()
